@@ -333,6 +333,25 @@ def rule_stop(ctx, rep):
                           what="STOP is tested only after the queue was examined/spliced (and its batch run)")
 
 
+def rule_stop_request(ctx, rep):
+    """requester side of the stop handshake (call_rcu_data_free): STOP is set before the helper is woken - a helper woken first
+    finds nothing to do, goes back to sleep and never sees STOP, while the requester polls for STOPPED for ever"""
+    for fl in ALL:
+        F = FL[fl]
+        f = ctx.fn(F.lib, F.pfx + "_call_rcu_data_free")
+        rep.touch(f)
+        st = [e.inst for e in pat.accesses(f, "call_rcu_data.flags", ("rmw",)) if e.rop == "or" and ir.const_of(f, e.val) == flags(ctx).STOP]
+        fu = [l for l in pat.loads(f, "call_rcu_data.futex") if l.d["ap"]["base"] == ["a", 0]]
+        if not st or not fu:
+            raise Broken("%s: call_rcu_data_free: STOP request / wake-up of the helper not found" % fl)
+        rep.must_pass("C03.stop", fl + ".request.STOP≺wake", f, [f.entry()], fu, lambda i: i in st, include_start=True, what="STOP is requested before the helper's futex is tested (wake-up)")
+        known = flags(ctx).all      # the remaining bit tested on the helper's flags is URCU_CALL_RCU_RT (public creation flag)
+        rt = set((t.blk.id, s_) for t, s_, a in pat.branch_edges_on(f, lambda a: a[0] == "ne" and a[2] == ("c", 0) and a[1][0] == "bin" and a[1][1] == "and" and a[1][3][0] == "c" and a[1][3][1] not in known
+                                                                    and a[1][2][0] == "load" and a[1][2][1] == "arg0.call_rcu_data.flags"))
+        rep.must_pass("C03.stop", fl + ".request.STOP⇒wake", f, st, None, lambda i: i in fu, to_exit=True, edge_ok=pat.block_edge_filter(rt),
+                      what="after requesting STOP the helper is woken on every path (polling RT helpers excepted)")
+
+
 def rule_freeall(ctx, rep):
     for fl in ALL:
         F = FL[fl]
@@ -586,13 +605,27 @@ def rule_select(ctx, rep):
                           "get_call_rcu_data can return a NULL per-CPU helper", [h.rets()[0].where()])
 
 
+def rule_helper_loop(ctx, rep):
+    """The helper thread as a consumer loop (sibling of the work queue worker, same template): a grabbed batch is always
+    iterated, the private batch queue is re-initialised before each splice, every callback is invoked, the thread returns only
+    after observing STOP - and can reach that return."""
+    from . import wq
+    FLG = flags(ctx)
+    for fl in ALL:
+        F = FL[fl]
+        h = ctx.fn(F.lib, "call_rcu_thread")
+        wq.worker_rules(rep, "C03.helper", h, None, "call_rcu_data.flags", "call_rcu_data.futex", "call_rcu_data.cbs_head", "call_rcu_data.cbs_tail", "rcu_head.func", FLG.STOP, tag=fl + ".helper")
+
+
 RULES = [
+    ("C03.helper", rule_helper_loop),
     ("C03.flags", rule_flags),
     ("C03.gp", rule_gp),
     ("C03.enq", rule_enq),
     ("C03.offline", rule_offline),
     ("C03.handover", rule_handover_c03),
     ("C03.stop", rule_stop),
+    ("C03.stop", rule_stop_request),
     ("C03.freeall", rule_freeall),
     ("C03.list", rule_list),
     ("C03.cb-nolock", rule_cb_nolock),
